@@ -79,17 +79,31 @@ def build(spec, order: random.Random | None):
 
 def hash_all(specs, order_seeds):
     """-> {order_seed: [hash | "raise:<ExceptionName>"]} using the real redun code."""
+    import logging
+
+    from redun.backends.db import RedunBackendDb
     from redun.value import get_type_registry
+    logging.getLogger("redun").setLevel(logging.ERROR)     # keep stdout/stderr for the JSON answer
     reg = get_type_registry()
+    backend = RedunBackendDb(db_uri="sqlite:///:memory:")
+    backend.load()
     out = {}
     for os_ in order_seeds:
         res = []
         for i, sp in enumerate(specs):
             rng = None if os_ is None else random.Random(f"{os_}:{i}")
+            v = build(sp, rng)
             try:
-                res.append(reg.get_hash(build(sp, rng)))
+                h = reg.get_hash(v)
             except Exception as e:  # noqa: the exception type is part of the observation
-                res.append("raise:" + type(e).__name__)
+                h = "raise:" + type(e).__name__
+            # the hash the scheduler records for a task argument / result (CallNode.value_hash,
+            # Argument.value_hash): RedunBackendDb.record_value -> get_hash(data=serialize())
+            try:
+                r = backend.record_value(v)
+            except Exception as e:  # noqa
+                r = "raise:" + type(e).__name__
+            res.append(h if r == h else f"{h}|recorded:{r}")
         out[str(os_)] = res
     return out
 
